@@ -13,9 +13,10 @@ R4 delegation to the inner (wrapped) path calls the same operation with every ar
 from __future__ import annotations
 
 import ast
+import itertools
 
-from ..dataflow import fragments, origins
-from ..model import unparse, walk_no_nested
+from ..dataflow import defs_of, fragments, origins
+from ..model import ancestors, unparse, walk_no_nested
 from ..selftest import V
 from ..shell import check_quoting, command_sinks
 
@@ -118,6 +119,61 @@ def r2(ctx):
     ctx.require(found, "C24.R2: glob result loop not found")
 
 
+def _flag_conditions(f, flag):
+    """Governing condition (as an AST, polarity folded in) of every occurrence of the constant word `flag` in f."""
+    out = []
+    for n in f.body_nodes():
+        if not (isinstance(n, ast.Constant) and n.value == flag):
+            continue
+        cond = None
+        child = n
+        for a in ancestors(n):
+            if isinstance(a, (ast.FunctionDef, ast.AsyncFunctionDef)):
+                break
+            t = None
+            if isinstance(a, ast.IfExp):
+                if child is a.body:
+                    t = a.test
+                elif child is a.orelse:
+                    t = ast.UnaryOp(op=ast.Not(), operand=a.test)
+            elif isinstance(a, ast.If):
+                if any(child is s for s in a.body):
+                    t = a.test
+                elif any(child is s for s in a.orelse):
+                    t = ast.UnaryOp(op=ast.Not(), operand=a.test)
+            if t is not None and "_get_inner_path" not in unparse(t):
+                cond = t if cond is None else ast.BoolOp(op=ast.And(), values=[t, cond])
+            child = a
+        out.append(cond if cond is not None else ast.Constant(value=True))
+    return out
+
+
+def _bool_eval(f, e, env, depth=4):
+    if isinstance(e, ast.Constant) and isinstance(e.value, bool):
+        return e.value
+    if isinstance(e, ast.Name):
+        if e.id in env:
+            return env[e.id]
+        ds = [d for d in defs_of(f, e.id)]
+        if depth and len(ds) == 1 and ds[0].kind in ("assign", "walrus") and ds[0].value is not None and ds[0].index is None:
+            return _bool_eval(f, ds[0].value, env, depth - 1)
+        raise ValueError(e.id)
+    if isinstance(e, ast.NamedExpr):
+        return _bool_eval(f, e.value, env, depth)
+    if isinstance(e, ast.UnaryOp) and isinstance(e.op, ast.Not):
+        return not _bool_eval(f, e.operand, env, depth)
+    if isinstance(e, ast.BoolOp):
+        vs = [_bool_eval(f, v, env, depth) for v in e.values]
+        return all(vs) if isinstance(e.op, ast.And) else any(vs)
+    if isinstance(e, ast.Compare) and len(e.ops) == 1 and isinstance(e.comparators[0], ast.Constant) and isinstance(e.comparators[0].value, bool):
+        l, r = _bool_eval(f, e.left, env, depth), e.comparators[0].value
+        if isinstance(e.ops[0], (ast.Is, ast.Eq)):
+            return l == r
+        if isinstance(e.ops[0], (ast.IsNot, ast.NotEq)):
+            return l != r
+    raise ValueError(unparse(e)[:60])
+
+
 def r3(ctx):
     p = ctx.prog
     c = p.cls(CLS)
@@ -192,16 +248,30 @@ def r3(ctx):
     wk = c.methods.get("walk")
     uses = wk is not None and any(isinstance(x.func, ast.Attribute) and x.func.attr == "_make_child_relpath" for x in wk.calls())
     ctx.ob("R3", "walk descends into sub-directories through the child-path helper", bool(uses), func=wk or mk, node=(wk or mk).node, instance="walk:descends")
-    # mkdir: -p exactly when parents or exist_ok
-    f = c.methods["mkdir"]
-    ok = False
-    for n in f.body_nodes():
-        if isinstance(n, ast.If) and any(
-            isinstance(x, ast.Constant) and x.value == "-p" for b in n.body for x in ast.walk(b)
-        ):
-            names = {x.id for x in ast.walk(n.test) if isinstance(x, ast.Name)}
-            ok = names == {"parents", "exist_ok"} and isinstance(n.test, ast.BoolOp) and isinstance(n.test.op, ast.Or)
-    ctx.ob("R3", "mkdir adds -p iff parents or exist_ok", ok, func=f, node=f.node, instance="mkdir:-p")
+    # conditional flags: the flag word is issued exactly under the stated condition over the method's parameters
+    # (statement `if`, conditional expression, either polarity, through temporaries; truth table over the parameters)
+    for meth, flag, params, want, why in (
+        ("mkdir", "-p", ("parents", "exist_ok"), lambda v: v["parents"] or v["exist_ok"], "parents or exist_ok"),
+        ("chmod", "-h", ("follow_symlinks",), lambda v: not v["follow_symlinks"], "not follow_symlinks"),
+    ):
+        f = c.methods[meth]
+        conds = _flag_conditions(f, flag)
+        reaches = any(fr.kind == "const" and flag in str(ast.literal_eval(fr.text)).split() for _c, cmd in command_sinks(f) for fr in fragments(p, f, cmd))
+        ok = bool(conds) and reaches
+        detail = "" if reaches else "the flag word never reaches the command"
+        for cond in conds:
+            for vals in itertools.product((False, True), repeat=len(params)):
+                env = dict(zip(params, vals))
+                try:
+                    got = _bool_eval(f, cond, env)
+                except ValueError as e:
+                    ok, detail = False, f"condition not interpretable over {params}: {e}"
+                    break
+                if bool(got) != bool(want(env)):
+                    ok, detail = False, f"with {env} the flag is {'issued' if got else 'omitted'}"
+                    break
+        ctx.ob("R3", f"{meth} adds {flag} iff {why}", ok, func=f, node=f.node, instance=f"{meth}:{flag}",
+               message=f"{meth} does not issue `{flag}` exactly when `{why}`" + (f" ({detail})" if detail else ""))
     # symlink_to/hardlink_to: target precedes link name
     for name in ("symlink_to", "hardlink_to"):
         f = c.methods[name]
@@ -338,6 +408,21 @@ VARIANTS = [
     V("is_dir tests -f", FILE, f"{CLS}.is_dir", "'-d'", "'-f'", "R3"),
     V("rmtree without -r", FILE, f"{CLS}.rmtree", "'-rf'", "'-f'", "R3"),
     V("mkdir -p only on parents", FILE, f"{CLS}.mkdir", "if parents or exist_ok:", "if parents:", "R3"),
+    V("mkdir -p and", FILE, f"{CLS}.mkdir", "if parents or exist_ok:", "if parents and exist_ok:", "R3"),
+    V("mkdir flags via conditional expression (benign)", FILE, f"{CLS}.mkdir",
+      "command = ['mkdir', '-m', f'{mode:o}']\n        if parents or exist_ok:\n            command.append('-p')\n        command.append(shlex.quote(self.__str__()))",
+      "flags = ['-p'] if parents or exist_ok else []\n        command = ['mkdir', '-m', f'{mode:o}', *flags, shlex.quote(self.__str__())]", None),
+    V("mkdir flags via negated conditional expression (benign)", FILE, f"{CLS}.mkdir",
+      "if parents or exist_ok:\n            command.append('-p')", "create = not (not parents and not exist_ok)\n        command.extend([] if not create else ['-p'])", None),
+    V("mkdir flags conditional expression with swapped arms", FILE, f"{CLS}.mkdir",
+      "if parents or exist_ok:\n            command.append('-p')", "command.extend([] if parents or exist_ok else ['-p'])", "R3"),
+    V("mkdir flag built but not issued", FILE, f"{CLS}.mkdir",
+      "if parents or exist_ok:\n            command.append('-p')", "flags = ['-p'] if parents or exist_ok else []", "R3"),
+    V("chmod -h on follow_symlinks", FILE, f"{CLS}.chmod", "if not follow_symlinks:", "if follow_symlinks:", "R3"),
+    V("chmod -h always", FILE, f"{CLS}.chmod", "if not follow_symlinks:\n            command.append('-h')", "command.append('-h')", "R3"),
+    V("chmod flags via conditional expression (benign)", FILE, f"{CLS}.chmod",
+      "command = ['chmod']\n        if not follow_symlinks:\n            command.append('-h')\n        command.extend([f'{mode:o}', shlex.quote(self.__str__())])",
+      "flags = [] if follow_symlinks else ['-h']\n        command = ['chmod', *flags, f'{mode:o}', shlex.quote(self.__str__())]", None),
     V("_test returns status", FILE, f"{CLS}._test", "return not status", "return bool(status)", "R3"),
     V("_test tolerates status 2", FILE, f"{CLS}._test", "status > 1", "status > 2", "R3"),
     V("symlink operands swapped", FILE, f"{CLS}.symlink_to", "shlex.quote(str(target)), shlex.quote(self.__str__())", "shlex.quote(self.__str__()), shlex.quote(str(target))", "R3"),
